@@ -23,7 +23,7 @@ RULE = ("run = pool of named games + 3-12 ops from {write input file in one of 5
         "or an overwrite of a different earlier report, or a fired I/O fault/interrupt; distinct = hash of (op shapes, game hashes, faults fired)")
 
 STEMS = ["in1", "My_Games_2", "x", "robot_1_w2_l2_r6", "A", "paper_games", "t_0", "cafe\u0301_7", "caf\u00e9_7", "\u2126_ohm"]
-GNAMES = ["g", "game_a", "game_b", "X1", "fig_5_5", "a", "b2", "Robot_47", "test", "n0", "big_reward", "z_9", "game_c", "G_", "_", "0", "Z"*3 + "_" + "9"*40, "no_prune", "UPPER_lower_123", "dise\u00f1o_2", "x_no_prune_v2", "odds_in_%_9", "rb10%%_lb5%"]
+GNAMES = ["g", "game_a", "game_b", "X1", "fig_5_5", "a", "b2", "Robot_47", "test", "n0", "big_reward", "z_9", "game_c", "G_", "_", "0", "Z"*3 + "_" + "9"*40, "no_prune", "UPPER_lower_123", "dise\u00f1o_2", "x_no_prune_v2", "odds_in_%_9", "rb10%%_lb5%", "grid{3x3}", "cell{n_states}"]
 DIRS = ["inputs", "inputs", "inputs", "other", "inputs/nested", "ABS"]
 EXTS = [".py", ".py", ".py", ".txt", ""]
 ENTRY_KEYS = ("msg", "n_states", "n_transitions", "n_iterations_reach", "n_iterations_rew",
